@@ -16,7 +16,7 @@ struct Item {
 };
 struct Scenario {
     std::string name;
-    long B = 0x20000, Q = 10, C = 0x20000, post = 0, rp = 1, level = 0;
+    long B = 0x20000, Q = 10, C = 0x20000, post = 0, rp = 1, level = 0, late = 0;
     std::vector<Item> items;
     std::string filename;
 };
@@ -40,6 +40,7 @@ static std::vector<Scenario> load_scenarios(const char * fn) {
                 else if (k == "POST") s.post = x;
                 else if (k == "RP") s.rp = x;
                 else if (k == "LEVEL") s.level = x;
+                else if (k == "LATE") s.late = x;        // level / restore points are configured only after open()
             }
         } else if (w[0] == "ITEM") {
             Item it;
@@ -206,14 +207,19 @@ static void start_session(Session & S, const Scenario & sc) {
     S.file->m_uncompressedFile.setBufferSize(sc.B);
     S.file->m_readWriteQueue.setBufferSize((uint32_t) sc.Q);
     S.file->setDefaultLogContainerSize((uint32_t) sc.C);
-    S.file->compressionLevel = (int) sc.level;
-    S.file->writeRestorePoints = sc.rp != 0;
+    S.file->compressionLevel = sc.late ? (sc.level == 0 ? 6 : 0) : (int) sc.level;
+    S.file->writeRestorePoints = sc.late ? (sc.rp == 0) : (sc.rp != 0);
     vsched::set_untracked(&S.file->m_compressedFile.m_mutex);
     if (sc.post) vsched::set_post_unlock(&S.file->m_readWriteQueue.m_mutex);
     Session * sp = &S;
     vsched::spawn([sp] {
         File & f = *sp->file;
         f.open(sp->sc->filename.c_str(), std::ios_base::out);
+        if (sp->sc->late) {
+            vsched::app_point();      // the workers may already be running (and waiting) when the application gets here
+            f.compressionLevel = (int) sp->sc->level;
+            f.writeRestorePoints = sp->sc->rp != 0;
+        }
         for (const Item & it : sp->sc->items) {
             f.write(make(it));
             sp->nw++;
@@ -400,6 +406,13 @@ int main(int argc, char ** argv) {
                 if (tf) fprintf(tf, "{\"e\":\"Reset\",\"scen\":\"%s\",\"pt\":%s}\n", sc.name.c_str(), project(S).c_str());
                 long budget = getenv("VERIF_BUDGET") ? atol(getenv("VERIF_BUDGET")) : 4000000;
                 std::string verdict;
+                if (sc.late && (r % 2 == 1)) {
+                    // directed prefix: every other run lets the workers start and settle before the application
+                    // configures level / restore points (the other runs leave the order to the seeded schedule)
+                    for (int k = 0; k < 200 && vsched::runnable(0) && vsched::info(0).kind != vsched::K_APP; k++) { vsched::step(0); steps++; }
+                    for (int t = 1; t < vsched::nthreads(); t++)
+                        for (int k = 0; k < 8 && vsched::runnable(t); k++) { vsched::step(t); steps++; }
+                }
                 for (;;) {
                     std::vector<int> run;
                     for (int t = 0; t < vsched::nthreads(); t++)
